@@ -8,7 +8,7 @@
      - every scalar format is one the import knows,
      - every reference names an entry of the set.
    The last three are the hypotheses of the C15 round-trip theorem. *)
-From Coq Require Import String List Arith NArith ZArith Bool Lia.
+From Coq Require Import String List Arith NArith ZArith Bool Lia Permutation.
 From J5V.lib Require Import Outcome.
 From J5V.model Require Import ReflectDesc ReflectSchema Reflect ReflectSpec Export.
 From J5V.proofs Require Import ReflectProofs ExportProofs.
@@ -825,6 +825,28 @@ Proof.
       { intros [H|H]; [inversion H; subst; left; reflexivity|right; apply I3; exact H]. }
 Qed.
 
+(* the entries of a reflected set satisfy what the round-trip theorems assume *)
+Lemma reflect_entries_ok D fs S :
+  wf_keys D -> reflect D fs = Ok S ->
+  export_set S = Ok (export_entries (linked_entries S)) /\
+  NoDup (map fst (linked_entries S)) /\ all_importable (linked_entries S) /\ closed (linked_entries S).
+Proof.
+  intros Hwf HS.
+  destruct (reflect_ok_guarantees D Hwf fs S HS) as (Hkd & Himp & Hcl & _ & Hnp).
+  pose proof (reflect_final D Hwf fs) as Hfin. rewrite HS in Hfin. destruct Hfin as [(_ & _ & Hnd) _].
+  destruct (all_linked_entries S Hnp Hnd) as (E1 & E2 & E3).
+  set (L := linked_entries S) in *.
+  split; [exact E2|]. split; [rewrite E1; exact Hnd|]. split.
+  - intros k r Hin. apply E3 in Hin. unfold set_importable in Himp.
+    apply (proj1 (forallb_forall _ _) Himp (k, Linked r) Hin).
+  - intros k Hk. unfold entry_refs in Hk. apply in_flat_map in Hk as ([k0 r0] & Hin0 & Hr). cbn [snd] in Hr.
+    apply E3 in Hin0. unfold set_closed, refs_resolved in Hcl.
+    pose proof (proj1 (forallb_forall _ _) Hcl (k0, Linked r0) Hin0) as H. cbn [snd] in H.
+    pose proof (proj1 (forallb_forall _ _) H k Hr) as H2.
+    cbn beta in H2. destruct (lookup S k) as [[|r2]|] eqn:El; try discriminate H2.
+    rewrite E1. apply lookup_Some_In in El. apply (in_map fst) in El. exact El.
+Qed.
+
 Theorem reflect_export_import_roundtrip D fs S :
   wf_keys D -> reflect D fs = Ok S ->
   exists X, export_set S = Ok X /\
@@ -833,29 +855,9 @@ Theorem reflect_export_import_roundtrip D fs S :
     (forall k, ~ In k (map fst X) -> lookup S' k = None) /\
     refs_resolved S' = true.
 Proof.
-  intros Hwf HS.
-  destruct (reflect_ok_guarantees D Hwf fs S HS) as (Hkd & Himp & Hcl & _ & Hnp).
-  pose proof (reflect_final D Hwf fs) as Hfin. rewrite HS in Hfin. destruct Hfin as [(_ & _ & Hnd) _].
-  destruct (all_linked_entries S Hnp Hnd) as (E1 & E2 & E3).
-  set (L := linked_entries S) in *.
-  assert (HndL : NoDup (map fst L)) by (rewrite E1; exact Hnd).
-  assert (HimpL : all_importable L).
-  { intros k r Hin. apply E3 in Hin. unfold set_importable in Himp.
-    apply (proj1 (forallb_forall _ _) Himp (k, Linked r) Hin). }
-  assert (HclL : closed L).
-  { intros k Hk. unfold entry_refs in Hk. apply in_flat_map in Hk as ([k0 r0] & Hin0 & Hr). cbn [snd] in Hr.
-    apply E3 in Hin0. unfold set_closed, refs_resolved in Hcl.
-    pose proof (proj1 (forallb_forall _ _) Hcl (k0, Linked r0) Hin0) as H. cbn [snd] in H.
-    pose proof (proj1 (forallb_forall _ _) H k Hr) as H2.
-    cbn beta in H2. destruct (lookup S k) as [[|r2]|] eqn:El; try discriminate H2.
-    rewrite E1. apply lookup_Some_In in El. apply (in_map fst) in El. exact El. }
-  destruct (export_import_roundtrip L HndL HimpL HclL) as (S' & Hi & Hin & Hout & Hres).
-  exists (export_entries L). split; [exact E2|]. exists S'. split; [exact Hi|]. split; [|split; [|exact Hres]].
-  - intros k x Hx. unfold export_entries in Hx. apply in_map_iff in Hx as ([k0 r0] & Hf & H0). cbn [fst snd] in Hf.
-    inversion Hf; subst k x. destruct (Hin k0 r0 H0) as (r' & Hl & He). exists r'. split; assumption.
-  - assert (Hk' : map fst (export_entries L) = map fst L)
-      by (unfold export_entries; rewrite map_map; apply map_ext; intros [a b]; reflexivity).
-    intros k Hk. apply Hout. rewrite <- Hk'. exact Hk.
+  intros Hwf HS. destruct (reflect_entries_ok D fs S Hwf HS) as (E2 & HndL & HimpL & HclL).
+  exists (export_entries (linked_entries S)). split; [exact E2|].
+  apply (export_import_roundtrip_perm (linked_entries S) _ (Permutation_refl _) HndL HimpL HclL).
 Qed.
 
 (* ---------------------------------------------------------------- a decision procedure for wf_desc *)
